@@ -164,7 +164,7 @@ func c13ConfAlgebra(c *Check) {
 				c.Result(okCopy && okErr, "C13.K", "Changer."+name+" works on a checked copy", fnName(fn), p.site(ret), "trk <- c.checkAndCopy() with err == nil (the input configuration is validated too)", sanitizeKey(a[1].Key()))
 			}
 		}
-		c.Result(nAccept == 1, "C13.K", "Changer."+name+" has one accepting return", fnName(fn), p.Pos(fn.Pos()), "one return whose error may be nil", fmt.Sprint(nAccept))
+		c.Result(nAccept >= 1, "C13.K", "Changer."+name+" has an accepting return", fnName(fn), p.Pos(fn.Pos()), "one return whose error may be nil", fmt.Sprint(nAccept))
 	}
 	// checkAndReturn returns its arguments only when checkInvariants returned nil
 	{
